@@ -253,7 +253,7 @@ theorem fieldRecord_ok {afs : List Tree} {f : String} {w : Nat} (hne : afs ≠ [
 /-- the IO loop never raises a validation error -/
 theorem emitFields_err {afs : List Tree} {fields : List String} {e : Err}
     (h : (emitFields afs fields).err = some e) :
-    e = .keyError ∨ e = .zeroDim ∨ e = .unboundWidth := by
+    e = .keyError ∨ e = .indexError ∨ e = .unboundWidth := by
   induction fields with
   | nil => simp [emitFields] at h
   | cons f fs ih =>
@@ -270,7 +270,7 @@ theorem emitFields_err {afs : List Tree} {fields : List String} {e : Err}
       split at hr
       · cases hr; simp
       · split at hr
-        · cases hr; simp
+        · split at hr <;> cases hr <;> simp
         · split at hr
           · cases hr; simp
           · cases hr
